@@ -91,6 +91,12 @@ CHECKS = {
         text='Each constructed crossing must be reported exactly once within 1e-4 in both parameters; for Line-Line/Line-Bezier/Bezier-Line pairs in general position (decided exactly, others filtered and counted) the number of reported pairs must equal the exact count in both operand orders; Path.intersect must report the exact total for polyline x Bezier-chain pairs.',
         note='Trusted: mc/exact.py root isolation; the dense neighbourhood search as the reading of "well separated". Two arcs only when both circular and unrotated.',
         design='4/C12'),
+    'C13': dict(
+        level='exploration',
+        technique='bounded-exhaustive enumeration of Bezier library x rotations x query-point families (far, near, on the curve, centre of curvature, beyond the ends, lattice) and paths, against dense evaluation refined by golden-section search',
+        text='For every (curve, query point) of the grid the real radialrange / closest_point_in_path / farthest_point_in_path answer must have t in [0,1], d equal to the distance at the returned parameter (1e-9*size) and no sampled-and-refined point of the curve closer than dmin or farther than dmax (1e-6*size); for paths the returned segment index must attain the extreme.',
+        note='Trusted: point(); the dense + refined reference (4097 samples, local golden-section).',
+        design='4/C13'),
 }
 
 NOT_YET = {}
